@@ -209,8 +209,9 @@ func self() string {
 // runSingle runs one case in a fresh child process and returns its violations.
 // died reports a fatal death (or timeout) of the child.
 func runSingle(prop, entry, input string, seed uint64, timeout time.Duration) (viol []mon.Violation, died bool, stderrTail string) {
-	runDir := filepath.Join(*verifDir, "run")
+	runDir := filepath.Join(*verifDir, "run", fmt.Sprintf("case.%d", os.Getpid()))
 	os.MkdirAll(runDir, 0o755)
+	defer os.Remove(runDir)
 	h := sha1.Sum([]byte(prop + "\x00" + entry + "\x00" + input))
 	base := filepath.Join(runDir, fmt.Sprintf("case-%s-%x", prop, h[:6]))
 	inF, outF, errF := base+".in", base+".json", base+".stderr"
@@ -352,8 +353,10 @@ func runDriver(seed uint64) int {
 		return 2
 	}
 	knowns := kf.For(*propID)
-	runDir := filepath.Join(*verifDir, "run")
+	// a private run directory per invocation, so that concurrent invocations cannot disturb each other
+	runDir := filepath.Join(*verifDir, "run", fmt.Sprintf("%s.%d", *propID, os.Getpid()))
 	os.MkdirAll(runDir, 0o755)
+	defer os.Remove(runDir) // removed when empty, i.e. when every shard finished cleanly
 
 	// 1. replay the witnesses of the known findings
 	knownHits := map[int]int64{}
